@@ -26,6 +26,10 @@ from pDESy.model.base_workplace import BaseWorkplace
 
 
 # ----------------------------------------------------------------------------- round trips
+def jdump_full(m):
+    return json.dumps(_num(S.dump(m)), sort_keys=True, default=str)
+
+
 def load(path):
     p = BaseProject()
     p.read_simple_json(path)
@@ -153,6 +157,13 @@ def round_trip(spec, opts, stage_name, op, tmpdir, col, label):
         d = first_diff(json.dumps(j1, sort_keys=True), json.dumps(j2, sort_keys=True))
         leaf = [x for x in d[0] if isinstance(x, str)][-1] if d else "?"
         out.append(("C16:export-of-loaded-project-differs-from-file:%s" % leaf, {"stage": stage_name, "first_difference(path, file, re-export)": d}))
+    # everything observable of the loaded project equals the original (all logs, live state, placements, allocations)
+    da, db = jdump_full(m), jdump_full(S.adopt(p2))
+    col.checks["c16.state-equal"] += 1
+    if da != db:
+        d = first_diff(da, db)
+        leaf = [x for x in d[0] if isinstance(x, str)][-1] if d else "?"
+        out.append(("C16:loaded-project-state-differs-from-original:%s" % leaf, {"stage": stage_name, "first_difference(path, original, loaded)": d}))
     bad = check_references(p2)
     col.checks["c16.references"] += 1
     if bad:
